@@ -12,6 +12,7 @@ AN = "openpectus/lang/exec/analyzer.py"
 AST = "openpectus/lang/model/ast.py"
 MM = "openpectus/engine/method_manager.py"
 RLOG = "openpectus/lang/exec/runlog.py"
+CSVG = "openpectus/aggregator/csv_generator.py"
 
 
 def M(id, prop, file, find, replace, expect, why, **kw):
@@ -230,4 +231,15 @@ VARIANTS = [
     M("C15-notify-not-tracked", "C15", PI, "        self.tracking.mark_started(node)\n        self.tracking.mark_completed(node)\n        node.completed = True\n        yield VisitResult.EndTick\n\n\n    def visit_EngineCommandNode", "        self.tracking.mark_started(node)\n        node.completed = True\n        yield VisitResult.EndTick\n\n\n    def visit_EngineCommandNode", "R15e", "Notify completes without a Completed state"),
     E("C15-finalise-reordered", "C15", RLOG, "                    item.end = state.state_time\n                    item.end_values = state.values or TagValueCollection.empty()\n                    item.cancellable = False\n                    item.forcible = False\n", "                    item.cancellable = False\n                    item.forcible = False\n                    item.end_values = state.values or TagValueCollection.empty()\n                    item.end = state.state_time\n", "finalisation statements reordered"),
     E("C15-conclusive-tuple", "C15", RLOG, "                is_conclusive_state = state.state_name in [\n                    RuntimeRecordStateEnum.Completed, RuntimeRecordStateEnum.Failed, RuntimeRecordStateEnum.Cancelled\n                ]", "                is_conclusive_state = state.state_name in (\n                    RuntimeRecordStateEnum.Cancelled, RuntimeRecordStateEnum.Completed, RuntimeRecordStateEnum.Failed)", "tuple, other order"),
+    # ---------------------------------------------------------------- C34
+    M("C34-single-step", "C34", CSVG, "            while len(entry.values) >= 2 and tick_time >= entry.values[1].tick_time:", "            if len(entry.values) >= 2 and tick_time >= entry.values[1].tick_time:", "R34d", "cursor advances once per row (the pinned tree's defect)"),
+    M("C34-future-value", "C34", CSVG, "            if len(entry.values) == 0 or tick_time < entry.values[0].tick_time:", "            if len(entry.values) == 0:", "R34e", "late-starting tag shows its first value early (the pinned tree's defect)"),
+    M("C34-rows-before-header", "C34", CSVG, "    _write_header_row(csv_writer, plot_log)\n    _write_data_rows(csv_writer, plot_log, _get_tick_times(plot_log))", "    tick_times = _get_tick_times(plot_log)\n    rows = StringIO()\n    _write_data_rows(csv.writer(rows), plot_log, tick_times)\n    _write_header_row(csv_writer, plot_log)\n    csv_string.write(rows.getvalue())", "R34a", "rows generated before the header writer sorted the values"),
+    M("C34-header-no-sort", "C34", CSVG, "        entry.values.sort(key=lambda e: e.tick_time)\n", "", "R34a", "nobody sorts the values"),
+    M("C34-times-not-unique", "C34", CSVG, "    unique_tick_times = list(set(list_of_all_tick_times))", "    unique_tick_times = list(list_of_all_tick_times)", "R34b", "duplicate row times"),
+    M("C34-times-descending", "C34", CSVG, "    unique_tick_times.sort()", "    unique_tick_times.sort(reverse=True)", "R34b", "rows newest first"),
+    M("C34-other-columns", "C34", CSVG, "    for entry in plot_log.entries.values():\n        entry.values.sort(key=lambda e: e.tick_time)", "    for entry in sorted(plot_log.entries.values(), key=lambda e: e.name):\n        entry.values.sort(key=lambda e: e.tick_time)", "R34c", "header sorted by name, rows not"),
+    M("C34-skip-empty-entry", "C34", CSVG, "                # no value yet for this tag\n                row.append(None)", "                # no value yet for this tag\n                continue", "R34c", "no cell for a tag without value: columns shift"),
+    E("C34-guard-mirrored", "C34", CSVG, "            if len(entry.values) == 0 or tick_time < entry.values[0].tick_time:\n                # no value yet for this tag\n                row.append(None)\n            else:\n                row.append(entry.values[0].value)", "            if len(entry.values) > 0 and entry.values[0].tick_time <= tick_time:\n                row.append(entry.values[0].value)\n            else:\n                row.append(None)", "guard mirrored, branches swapped"),
+    E("C34-sorted-builtin", "C34", CSVG, "    unique_tick_times = list(set(list_of_all_tick_times))\n    unique_tick_times.sort()\n    return unique_tick_times", "    return sorted(set(list_of_all_tick_times))", "sorted(set(...))"),
 ]
